@@ -87,6 +87,7 @@ def pregen(ctx):
     L.append('Definition ctor_required : list bool := [' + '; '.join(
         'true' if (res.pkg.funcs[e.qual].cls in inplace_classes and e.qual.split('.')[-1] in ('__new__', '__init__')) else 'false'
         for e in res.entries) + '].')
+    L.append('Definition shared_ok : list bool := [' + '; '.join('true' if e.qual in TB.SHARED_RETURN_OK else 'false' for e in res.entries) + '].')
     L.append('Definition expected_mutators : list string := [' + '; '.join(f'"{n}"' for n in expected) + '].')
     path = os.path.join(ctx.build, 'gen', 'C19effects.v')
     pyfx.emit_coq(res, path, L)
@@ -184,7 +185,8 @@ def _cands(pname, ann, default, r, case):
     elif P in ('in_array', 'data', 'y', 'signal'):
         out += [arr(r.standard_normal(40))]
     elif P in ('lat', 'latitude', 'lon', 'longitude', 'az', 'elev', 'angle', 'ang', 'lat0', 'lon0', 'phi', 'theta', 'psi'):
-        out += [float(r.uniform(-60, 60)), np.array(float(r.uniform(-60, 60))), r.uniform(-60, 60, 3)]
+        edge = [float(r.uniform(-60, 60)), 0.0, 360.0, float(2 * np.pi)]
+        out += [edge[case % 4], np.array(float(r.uniform(-60, 60))), r.uniform(-60, 60, 3)]
     elif P in ('z', 'y0', 'x0', 'z0', 'ratio', 'a_local', 'alpha', 'gain', 'threshold',) and 'ndarray' not in ann:
         out += [float(r.uniform(0.1, 0.9))]
     elif P in ('omega', 'q_am', 'q_omega', 'state', 'db', 'b'):
@@ -239,6 +241,13 @@ def _live(qual):
     raise ImportError(qual)
 
 
+def _CTOR_KW(r):
+    """keyword arrays a constructor may keep by reference (weights deliberately do not sum to one)"""
+    return (('b0', np.array([0.01, -0.02, 0.03])), ('q0', _quat(r, True)), ('weights', np.array([2.0, 2.0])),
+            ('magnetic_ref', np.array([20.0, 1.0, 40.0])), ('mag_ref', np.array([20.0, 1.0, 40.0])),
+            ('P', np.identity(4) * 0.5), ('noises', np.array([0.3, 0.5, 0.8])), ('var_acc', 0.25), ('var_mag', 0.64))
+
+
 def _instance(cls, r, case):
     """an instance of a package class to call a method on, plus the caller arrays handed to its constructor"""
     name = cls.__name__
@@ -272,12 +281,14 @@ def _instance(cls, r, case):
             if k in sig:
                 kw[k] = v
                 held['ctor.' + k] = v
-    for k, v in (('b0', np.array([0.01, -0.02, 0.03])), ('q0', _quat(r, True)), ('weights', np.array([2.0, 2.0])),
-                 ('magnetic_ref', np.array([20.0, 1.0, 40.0])), ('mag_ref', np.array([20.0, 1.0, 40.0]))):
-        if (k in sig or any(p.kind == p.VAR_KEYWORD for p in sig.values())) and case % 2 == 1:
-            if k in sig or k in ('q0',):
-                kw[k] = v
-                held['ctor.' + k] = v
+    try:
+        src = inspect.getsource(cls)
+    except Exception:
+        src = ''
+    for k, v in _CTOR_KW(r):
+        if case % 2 == 1 and (k in sig or (any(p.kind == p.VAR_KEYWORD for p in sig.values()) and (f"'{k}'" in src or f'"{k}"' in src))):
+            kw[k] = v
+            held['ctor.' + k] = v
     try:
         return cls(**kw), held
     except Exception:
@@ -315,8 +326,14 @@ def synthesize(qual, case):
         if p.kind == p.VAR_KEYWORD:
             if isctor and owner is not None and owner.__name__ not in ('Quaternion', 'QuaternionArray', 'DCM') and case % 2 == 1:
                 kwargs['q0'] = [_quat(r, True)]
-            if isctor and owner is not None and owner.__name__ == 'FLAE':
-                kwargs['weights'] = [np.array([2.0, 2.0])]
+            if isctor and owner is not None and case % 2 == 0:
+                try:
+                    src = inspect.getsource(owner)
+                except Exception:
+                    src = ''
+                for k, v in _CTOR_KW(r):
+                    if isinstance(v, np.ndarray) and k != 'q0' and (f"'{k}'" in src or f'"{k}"' in src) and k not in kwargs:
+                        kwargs[k] = [v]
             continue
         ann = p.annotation if isinstance(p.annotation, str) else getattr(p.annotation, '__name__', str(p.annotation))
         c = _cands(p.name, ann, p.default, r, case)
@@ -394,6 +411,22 @@ def _canon(x):
     return repr(x)
 
 
+def _result_arrays(x, depth=0):
+    out = []
+    if isinstance(x, np.ndarray):
+        out.append(x)
+    elif isinstance(x, (list, tuple)) and depth < 3:
+        for v in x:
+            out += _result_arrays(v, depth + 1)
+    elif isinstance(x, dict) and depth < 3:
+        for v in x.values():
+            out += _result_arrays(v, depth + 1)
+    elif hasattr(x, '__dict__') and type(x).__module__.startswith('ahrs') and depth < 2:
+        for v in vars(x).values():
+            out += _result_arrays(v, depth + 1)
+    return out
+
+
 def observe(qual, case):
     """call `qual` on synthesised arguments.  Returns a dict:
        status 'ok' | 'uncovered'; mutated: list of argument paths whose bytes changed; repeat: True/False/None; variant"""
@@ -452,7 +485,29 @@ def observe(qual, case):
         except Exception as e:
             res['repeat'] = False
             res['repeat_error'] = f'{type(e).__name__}: {e}'[:100]
-        # second call on the SAME argument objects (call sequences): must also agree unless the first call mutated them
+        # result independence: results of two calls share no memory; scribbling over the first result (the caller owns it)
+        # must not change what a third identical call returns
+        if 'repeat_error' not in res:
+            try:
+                A1 = _result_arrays(r1)
+                A2 = _result_arrays(r2)
+                argarrs = [a for (_p, a, *_r) in before]
+                res['results_share'] = any(np.shares_memory(x, y) for x in A1 for y in A2)
+                res['result_views_argument'] = any(np.shares_memory(x, y) for x in A1 for y in argarrs if x.size and y.size)
+                want = _canon(r2)
+                wrote = False
+                for x in A1:
+                    if x.flags.writeable and x.size and x.dtype.kind in 'fiuc':
+                        x[...] = 7 if x.dtype.kind in 'iu' else np.nan
+                        wrote = True
+                if wrote:
+                    fn3, a3, k3, h3, ctor3 = build()
+                    with np.errstate(all='ignore'), warnings.catch_warnings():
+                        warnings.simplefilter('ignore')
+                        r3 = ctor3(**k3) if ctor3 is not None else fn3(*a3, **k3)
+                    res['independent'] = (_canon(r3) == want) if res.get('repeat') else None
+            except Exception as e:
+                res['independent_error'] = f'{type(e).__name__}: {e}'[:100]
         res['variant'] = _variant_of(qual, k1)
         return res
     return {'status': 'uncovered', 'why': f'every argument combination raised ({last})'}
@@ -522,6 +577,12 @@ def o_repeat(inp):
     ob = observe(q, inp['case'])
     if ob['status'] != 'ok' or ob.get('repeat') is None:
         return None
+    if ob.get('results_share') and not (_documented_inplace(ob['variant'])):
+        return {'tag': f'{q}/results-share-memory', 'observed': 'the arrays returned by two calls share memory', 'expected': 'independent results',
+                'note': str(ob['combo'])}
+    if ob.get('independent') is False:
+        return {'tag': f'{q}/result-not-independent', 'observed': 'after the caller overwrote the array it got from the first call, an identical call returned a different value',
+                'expected': 'equal results', 'note': str(ob['combo'])}
     if not ob['repeat']:
         return {'tag': f'{q}/not-repeatable', 'observed': ob.get('repeat_error', 'second call returned a different value'), 'expected': 'equal results',
                 'note': str(ob['combo'])}
